@@ -223,5 +223,5 @@ def run(ctx):
         if site and site[0]:
             extra = " [last array operation at %s:%s in %s]" % (site[0].split("/src/")[-1], site[1], site[2])
         ctx.add(Finding("C08", "C08.AXI." + kind, q, "%s (%d of the swept configurations fail)%s" % (what, len(items), extra), pm.path(mod), node.lineno, cfg, wit))
-    ev.instances("C08.AXI.obligations", ev.obligations, floor=30 if ctx.tier == "quick" else 60)
+    ev.instances("C08.AXI.obligations", ev.obligations, floor=30 if ctx.tier == "quick" else 50)
     ev.exhaustive = False
